@@ -167,6 +167,33 @@ let run (cols : string array) : string =
            let hres = if cols.(6) = "-" then None else (match String.split_on_char '=' cols.(6) with [k; v] -> Some (b_of_s k, unhex v) | _ -> None) in
            let l = if cols.(3) = "-" then None else Some (unhex cols.(3)) in
            (match pwv_core pparse f l (unhex cols.(4)) hres with None -> "NONE" | Some (v, x) -> "SOME\t" ^ str v ^ "\t" ^ hex x))
+  (* rules <MTnnn> <0|1 stop> <json tokens>: { } [ ] k<hex> s<hex> n<hex> t f z, space separated *)
+  | "rules" ->
+      let toks = ref (List.filter (fun x -> x <> "") (String.split_on_char ' ' cols.(3))) in
+      let next () = match !toks with [] -> "" | x :: r -> toks := r; x in
+      let peek () = match !toks with [] -> "" | x :: _ -> x in
+      let rec value () : jv =
+        let t = next () in
+        if t = "{" then begin
+          let acc = ref [] in
+          while peek () <> "}" && peek () <> "" do
+            let k = next () in
+            let key = unhex (String.sub k 1 (String.length k - 1)) in
+            let v = value () in
+            acc := (key, v) :: !acc
+          done;
+          ignore (next ()); JObj (List.rev !acc) end
+        else if t = "[" then begin
+          let acc = ref [] in
+          while peek () <> "]" && peek () <> "" do acc := value () :: !acc done;
+          ignore (next ()); JArr (List.rev !acc) end
+        else if t = "t" then JBool true else if t = "f" then JBool false else if t = "z" then JNull
+        else if String.length t > 0 && t.[0] = 's' then JStr (unhex (String.sub t 1 (String.length t - 1)))
+        else if String.length t > 0 && t.[0] = 'n' then JNum (unhex (String.sub t 1 (String.length t - 1)))
+        else JNull in
+      let m = value () in
+      let es = validate_rules (b_of_s cols.(1)) m (cols.(2) = "1") in
+      String.concat ";" (List.map (fun e -> str e.ecode ^ ":" ^ str e.efield) es)
   | "fampos" -> String.concat ";" (List.map (fun (t, (f, b)) -> str t ^ "|" ^ str f ^ "|" ^ str b) positions)
   | "hdr1" -> (match parse_b1 (unhex cols.(1)) with None -> "ERR" | Some h -> "OK\t" ^ hex (display_b1 h) ^ "\t" ^ hex h.bh_sender_bic)
   | "hdr2" -> (match parse_b2 (unhex cols.(1)) with None -> "ERR" | Some h -> "OK\t" ^ hex (display_b2 h) ^ "\t" ^ hex (message_type_of h))
